@@ -63,6 +63,10 @@ FLOWS = {
     # a future-trigger child enters the pool in an earlier cycle than the current base point while the limit
     # sits at the stop point (finding stale-limit-at-stop-point)
     'child-behind-base': _flow(_sec('P1', 'e[+P2] => b', 'e', 'd[-P1] => d'), fcp=5, runahead=1),
+    # future triggers written relative to the INITIAL cycle point, mixed with a cycle-relative one: 1/b depends on 3/a
+    # (offset 2), 2/b on 3/a (offset 1), 1/d on 2/a; with runahead P0 the run completes only if the limit is extended
+    'icp-relative': _flow(_sec('P1', 'a', 'c') + _sec('R1', 'c & a[^+P2] => b') + _sec('R1/+P1', 'c & a[^+P2] => b') +
+                          _sec('R1', 'c & a[+P1] => d'), fcp=4, runahead=0),
 }
 
 
@@ -70,7 +74,7 @@ def corpus_cases():
     out = []
     for k, (name, flow) in enumerate(sorted(FLOWS.items())):
         for kind, seed in (('fut', 11), ('futcmd', 12), ('futcmd', 13)):
-            wf_tasks = sorted(set(c for c in 'abcde' if f'{c}' in flow.split('[[graph]]')[1].split('[runtime]')[0]))
+            wf_tasks = sorted(set(c for c in 'abcdef' if f'{c}' in flow.split('[[graph]]')[1].split('[runtime]')[0]))
             import random
             rng = random.Random(seed * 100 + k)
             wf = {'tasks': wf_tasks,
